@@ -349,13 +349,34 @@ Fixpoint coverage (i : input) (b : N) (ts es : list span) : bool :=
   | s :: r => (seg_ws s || covered ts b (seg_len s) || covered es b (seg_len s)) && coverage r (b + seg_len s) ts es
   end.
 
+(** The parser's span tree.  The span of a strand / modified word is built by merging the spans
+    of its parts (parse.rs:1127-1131 items[0].merge(items.last()), 1198-1202 mod_span.merge(last
+    operand)); [merge_all] merges all parts, [stree]/[tspan] lift it to nested words.
+    The tie recomputes [merge_all] on the exported parts of every strand and modified word and
+    compares with the reported span, and checks that a node contains its children. *)
+Definition merge_all (s : span) (l : list span) : span := fold_left merge l s.
+Inductive stree := SLeaf (s : span) | SNode (first : stree) (rest : list stree).
+Fixpoint tspan (t : stree) : span :=
+  match t with SLeaf s => s | SNode f r => merge_all (tspan f) (map tspan r) end.
+Fixpoint leaves (t : stree) : list span :=
+  match t with SLeaf s => [s] | SNode f r => leaves f ++ flat_map leaves r end.
+Definition span_eqb (a b : span) : bool := loc_eqb (fst a) (fst b) && loc_eqb (snd a) (snd b).
+Definition span_contains (p c : span) : bool :=
+  (byte_pos (fst p) <=? byte_pos (fst c)) && (byte_pos (snd c) <=? byte_pos (snd p)) &&
+  (char_pos (fst p) <=? char_pos (fst c)) && (char_pos (snd c) <=? char_pos (snd p)).
+Definition merge_case_ok (m : span * list span) : bool :=
+  match snd m with [] => true | c :: r => span_eqb (fst m) (merge_all c r) end.
+Definition contain_case_ok (m : span * list span) : bool := forallb (span_contains (fst m)) (snd m).
+
 Record tcase := TC { tc_in : input; tc_toks : list span; tc_errs : list span; tc_others : list span;
-                     tc_out : list chr; tc_gout : list span }.
+                     tc_out : list chr; tc_gout : list span;
+                     tc_merges : list (span * list span); tc_contains : list (span * list span) }.
 Definition tcase_ok (c : tcase) : bool :=
   forallb (span_ok (tc_in c)) (tc_toks c) && forallb (span_ok (tc_in c)) (tc_errs c) &&
   forallb (span_ok (tc_in c)) (tc_others c) &&
   ordered 0 (tc_toks c) && coverage (tc_in c) 0 (tc_toks c) (tc_errs c) &&
-  forallb (push_ok (tc_out c)) (tc_gout c).
+  forallb (push_ok (tc_out c)) (tc_gout c) &&
+  forallb merge_case_ok (tc_merges c) && forallb contain_case_ok (tc_contains c).
 
 Fixpoint failing_from {A} (f : A -> bool) (n : N) (l : list A) : list N :=
   match l with [] => [] | x :: r => if f x then failing_from f (n + 1) r else n :: failing_from f (n + 1) r end.
